@@ -48,6 +48,22 @@ pub struct SolverCache<D: DependencyProvider> {
     hint_dependencies_available: RefCell<BitVec>,
 }
 
+/// Removes the in-flight marker of a candidates request when dropped and
+/// notifies any waiters. This also happens when the request is dropped before
+/// it completed (e.g. because solving was cancelled).
+struct InFlightGuard<'a> {
+    in_flight: &'a RefCell<HashMap<NameId, Rc<Event>>>,
+    package_name: NameId,
+}
+
+impl Drop for InFlightGuard<'_> {
+    fn drop(&mut self) {
+        if let Some(notifier) = self.in_flight.borrow_mut().remove(&self.package_name) {
+            notifier.notify(usize::MAX);
+        }
+    }
+}
+
 impl<D: DependencyProvider> SolverCache<D> {
     /// Constructs a new instance from a provider.
     pub fn new(provider: D) -> Self {
@@ -110,15 +126,28 @@ impl<D: DependencyProvider> SolverCache<D> {
                         // Found an in-flight request, wait for that request to finish and return
                         // the computed result.
                         in_flight.listen().await;
-                        self.package_name_to_candidates
-                            .get_copy(&package_name)
-                            .expect("after waiting for a request the result should be available")
+                        match self.package_name_to_candidates.get_copy(&package_name) {
+                            Some(id) => id,
+                            // The request we were waiting for was dropped before it
+                            // completed. Start over.
+                            None => {
+                                return Box::pin(self.get_or_cache_candidates(package_name)).await;
+                            }
+                        }
                     }
                     None => {
                         // Prepare an in-flight notifier for other requests coming in.
                         self.package_name_to_candidates_in_flight
                             .borrow_mut()
                             .insert(package_name, Rc::new(Event::new()));
+
+                        // Make sure the in-flight marker is removed and waiters are
+                        // notified, also if this future is dropped before the provider
+                        // returned.
+                        let in_flight_guard = InFlightGuard {
+                            in_flight: &self.package_name_to_candidates_in_flight,
+                            package_name,
+                        };
 
                         // Otherwise we have to get them from the DependencyProvider
                         let candidates = self
@@ -154,12 +183,7 @@ impl<D: DependencyProvider> SolverCache<D> {
 
                         // Remove the in-flight request now that we inserted the result and notify
                         // any waiters
-                        let notifier = self
-                            .package_name_to_candidates_in_flight
-                            .borrow_mut()
-                            .remove(&package_name)
-                            .expect("notifier should be there");
-                        notifier.notify(usize::MAX);
+                        drop(in_flight_guard);
 
                         candidates_id
                     }
